@@ -444,6 +444,11 @@ func startServers(cfg *config.Config, stats metrics.Provider) {
 				lastPorts := []string{}
 				for {
 					time.Sleep(l.Refresh)
+					if atomic.LoadInt32(&shuttingDown) > 0 {
+						// do not re-open the listeners which
+						// proxy.Shutdown is closing
+						return
+					}
 					table := route.GetTable()
 					ports := []string{}
 					for target, rts := range table {
@@ -466,6 +471,9 @@ func startServers(cfg *config.Config, stats metrics.Provider) {
 					for _, port := range ports {
 						l := l
 						port := port
+						if atomic.LoadInt32(&shuttingDown) > 0 {
+							return
+						}
 						conn, err := net.Listen("tcp", port)
 						if err != nil {
 							log.Printf("[DEBUG] Dynamic TCP port %s in use", port)
